@@ -94,7 +94,11 @@ func init() {
 					"out $c08v\nout '" + sep + "'\n" +
 					"c08pf @c08arr\nout '" + sep + "'\n" +
 					"c08pf x @c08arr y\nout '" + sep + "'\n" +
-					ext + " x @c08arr y\n"
+					ext + " x @c08arr y\nout '" + sep + "'\n" +
+					// the variable glued to a bareword prefix, with more arguments after it
+					"c08pf pre$c08v second third\nout '" + sep + "'\n" +
+					// the same statement text executed twice (a function called twice)
+					"function c08g { c08pf q.x$1 z }\nc08g $c08v\nc08g $c08v\n"
 				if ext == "argvecho" {
 					x.Count("cases_with_external_argv_echo", 1)
 				}
@@ -122,8 +126,8 @@ func init() {
 			fail := func(form, detail string, got any, want any) {
 				x.Viol("args:"+form, fmt.Sprintf("%s with scalar %q / array %q: %s; stderr=%q", form, e.V, e.Arr, detail, trunc(string(run.Stderr), 300)), c, got, want)
 			}
-			if len(parts) != 7 {
-				fail("shape", fmt.Sprintf("expected 7 output sections, got %d: %q", len(parts), trunc(string(run.Stdout), 400)), len(parts), 7)
+			if len(parts) != 9 {
+				fail("shape", fmt.Sprintf("expected 9 output sections, got %d: %q", len(parts), trunc(string(run.Stdout), 400)), len(parts), 9)
 				return
 			}
 			scalarOK := func(got string) bool { return got == e.V || got == stripOneEOL(e.V) }
@@ -157,8 +161,31 @@ func init() {
 					fail(form, fmt.Sprintf("`f x @arr y` received %q", trunc(parts[5+i], 300)), parts[5+i], want)
 				}
 			}
+			// 7: f pre$v second third
+			if a, ok := decode(parts[7]); !ok || len(a) != 3 || a[1] != "second" || a[2] != "third" || !strings.HasPrefix(a[0], "pre") || !scalarOK(strings.TrimPrefix(a[0], "pre")) {
+				fail("fn-scalar-glued", fmt.Sprintf("`f pre$v second third` received %q", trunc(parts[7], 300)), parts[7], []string{"pre" + e.V, "second", "third"})
+			}
+			// 8: a function whose body is `f q.x$1 z`, called twice with $v
+			twice := strings.SplitAfter(parts[8], "\n")
+			okTwice := len(twice) >= 2
+			if okTwice {
+				for _, line := range twice[:2] {
+					a, ok := decode(strings.TrimSuffix(line, "\n"))
+					val := ""
+					if ok && len(a) == 2 {
+						val = strings.TrimPrefix(a[0], "q.x")
+					}
+					if !ok || len(a) != 2 || a[1] != "z" || !strings.HasPrefix(a[0], "q.x") || !(scalarOK(val) || val == stripOneEOL(stripOneEOL(e.V))) {
+						okTwice = false
+					}
+				}
+			}
+			if !okTwice && !strings.ContainsAny(e.V, "\n\r") {
+				// (values with line breaks print as several lines here: only checked in the other forms)
+				fail("fn-scalar-glued-twice", fmt.Sprintf("two calls of `function g { f q.x$1 z }` with $v received %q", trunc(parts[8], 400)), parts[8], []string{"q.x" + e.V, "z"})
+			}
 			// commands that actually ran
-			allowed := map[string]bool{"c08pf": true, "out": true, "argvecho": true, "function": true}
+			allowed := map[string]bool{"c08pf": true, "out": true, "argvecho": true, "function": true, "c08g": true}
 			for _, ev := range run.Events {
 				if ev.Kind == "exec" && len(ev.Args) >= 2 {
 					x.Count("exec_events", 1)
